@@ -1,10 +1,25 @@
 #!/bin/bash
 # Run once after a fresh restore (offline). Builds the engine-T driver against /repo and warms the
-# per-engine scratch crates. Every check rebuilds incrementally from /repo's working tree anyway.
+# per-engine scratch crates (Kani target dirs, MIR extraction crate). Every check rebuilds
+# incrementally from /repo's working tree anyway, so a failure here only makes the first check slower.
 set -u
 cd "$(dirname "$0")"
 export CARGO_NET_OFFLINE=true
 mkdir -p build evidence
-cp /repo/Cargo.lock t/Cargo.lock
-(cd t && cargo build 2>&1 | tail -3) || echo "setup: engine-T driver build failed (checks will retry)"
+cp /repo/Cargo.lock t/Cargo.lock 2>/dev/null
+(cd t && cargo build --offline 2>&1 | tail -3) || echo "setup: engine-T driver build failed (checks will retry)"
+# engine K: compile datafusion-common for Kani once per worker target dir
+python3 - <<'EOF' || echo "setup: warming the Kani target dirs failed (the C42 check will do it itself)"
+import os, sys
+sys.path.insert(0, os.getcwd())
+from k import c42
+from k import kani_run as K
+shapes = []
+for n in range(1, 6):
+    shapes += c42.trees(n)
+lib, names = c42.gen_lib(shapes)
+K.write_crate(c42.CRATE, "c42k", lib, 'datafusion-common = { path = "/repo/datafusion/common", default-features = false }')
+ok, err = K.prepare_targets(c42.CRATE, c42.WORK, 14, os.path.join(c42.WORK, "kani-build.log"), "c42_cont_transform_tables")
+print("kani target dirs warmed:", ok, err[-300:])
+EOF
 exit 0
